@@ -19,7 +19,7 @@ META = {
                  'stand-alone copy, each against the exact series reversion of the Krueger alpha series; result slots of grid2geo '
                  'against the reference inverse equations; Newton residual = forward conformal-latitude map minus target; '
                  'hemisphere mirror identities; input guards; iteration bound; rounding; provenance. Non-trivial = two normal '
-                 'forms built and compared or a table row bounded.',
+                 'forms built and compared or a table row bounded.; input-domain guards decided as predicates over the grid box (zones 0..60, eastings -2 830 000..3 830 000, northings 0..10 000 000; rejection just outside); ellipsoid / projection tables; CoordTM.geo threading; statelessness with memo-key analysis',
     'explanation': 'Static: grid2geo, beta_coeff and the module-level tables of Standalone/mga2gda.py are abstractly evaluated to exact '
                    'normal forms / exact rationals and compared with the inverse Karney-Krueger equations and with the series '
                    'reversion of the alpha table (derived on every run). Decides the named necessary conditions of C02 (tables, '
